@@ -588,6 +588,9 @@ func runChild(id string, cfg propCfg, vmon, work, tier string, seed uint64, batc
 		env = append(env, "VMON_OWN_NETWORK=1")
 	}
 	cmd.Dir = cdir
+	if cfg.GCStress && batch%2 == 1 {
+		env = append(env, "GOGC=10")
+	}
 	env = append(env, "GORACE=halt_on_error=1 exitcode=66", "GOTRACEBACK=all", "VERIF_REPO="+repoDir)
 	cmd.Env = env
 	lf, err := os.Create(logPath)
